@@ -946,6 +946,21 @@ func Remove(name string) error {
 		delete(p.FS.Links, name) // removes the link, not what it points to
 		return nil
 	}
+	if p.FS.Dirs[name] {
+		// a directory goes only when it is empty
+		for _, n := range p.FS.Names() {
+			if strings.HasPrefix(n, name+"/") {
+				return pathErr("remove", name, syscall.ENOTEMPTY)
+			}
+		}
+		for d := range p.FS.Dirs {
+			if strings.HasPrefix(d, name+"/") {
+				return pathErr("remove", name, syscall.ENOTEMPTY)
+			}
+		}
+		delete(p.FS.Dirs, name)
+		return nil
+	}
 	if _, ok := p.FS.Files[name]; !ok {
 		return pathErr("remove", name, syscall.ENOENT)
 	}
